@@ -1,5 +1,6 @@
 import TV.Proofs.ValidationError
 import TV.Monitor.ValidationError
+import TV.Proofs.MonitorVE
 /-!
 # C20 — ValidationError flattening is faithful and reading it has no side effects
 All statements are for every tree (any depth and fan-out, nil or non-nil maps at any node).
@@ -67,6 +68,28 @@ theorem C20_add_contains_both (warn : Bool) (e1 e2 : Err) (x : String × String)
 /-- the monitor the driver applies to the implementation accepts the model's own answers. -/
 theorem C20_model_passes_monitor_perm (warn : Bool) (e : VE) :
     (pairs (getFlat warn e).1).Perm (supplied warn "" e) := C20_flat_faithful warn e
+
+/-! ### the monitors the driver applies to the *implementation's* answers decide exactly these conclusions -/
+
+theorem C20_monitor_flat (warn : Bool) (tree : VE) (implFlat : SMap) :
+    Mon.flatFaithful warn tree implFlat = true ↔ (pairs implFlat).Perm (supplied warn "" tree) :=
+  Mon.flatFaithful_iff warn tree implFlat
+
+theorem C20_monitor_error (tree : VE) (implLines : List String) :
+    Mon.errorOnce tree implLines = true ↔
+      implLines.Perm (((supplied false "" tree).map (fun p => "ERROR:" ++ p.2)) ++
+                      ((supplied true "" tree).map (fun p => "WARNING:" ++ p.2))) :=
+  Mon.errorOnce_iff tree implLines
+
+theorem C20_monitor_add (warn : Bool) (e1 e2 : Err) (resFlat : SMap) :
+    Mon.addContainsBoth warn e1 e2 resFlat = true ↔
+      ∀ x, (suppliedErr warn e1 ++ suppliedErr warn e2).count x ≤ (pairs resFlat).count x :=
+  Mon.addContainsBoth_iff warn e1 e2 resFlat
+
+/-- hence the model's own flat maps pass the monitor, for every tree. -/
+theorem C20_model_passes_monitor (warn : Bool) (e : VE) :
+    Mon.flatFaithful warn e (getFlat warn e).1 = true :=
+  (Mon.flatFaithful_iff warn e _).2 (C20_flat_faithful warn e)
 
 /-! non-vacuity and witnesses -/
 def sampleTree : VE :=
